@@ -298,6 +298,7 @@ func lifeScript(r *Run, idx int, prop string) {
 		val      int64
 		deadline int64 // latest possible, 0 = none
 		demoted  bool
+		near     bool // virtual time has been moved to within a second of the deadline
 	}
 	var cur *live
 	type dead struct {
@@ -384,8 +385,17 @@ func lifeScript(r *Run, idx int, prop string) {
 					cur.demoted = false
 				}
 			}
-			if prop == "C15" && cur != nil && cur.demoted {
+			if prop == "C15" && cur != nil && cur.demoted && cur.deadline != 0 && st.VerifNowNano() >= cur.deadline {
+				// real time has carried the cache's clock past the deadline meanwhile: nothing is owed any more
+				r.Count("gets_after_a_demotion_not_judged_deadline_reached", 1)
+				if !ran {
+					retire("its deadline passed while it was in the secondary tier")
+				}
+			} else if prop == "C15" && cur != nil && cur.demoted {
 				checked++
+				if cur.near {
+					r.Count("gets_after_a_demotion_within_a_second_of_the_deadline", 1)
+				}
 				r.Count("gets_after_a_demotion", 1)
 				if ran || !ok || v != cur.val {
 					key := "evicted-entry-not-retrievable"
@@ -423,6 +433,29 @@ func lifeScript(r *Run, idx int, prop string) {
 			step("forced eviction of %d -> in secondary store: %v", k, inSec)
 		case x < 92: // the deadline passes
 			if cur == nil || cur.deadline == 0 {
+				continue
+			}
+			if prop == "C15" && !cur.demoted && !cur.near && rng.Intn(2) == 0 {
+				// ... or only comes close: the entry is still alive, with 150-850 ms to go, when it is evicted next. It is
+				// owed to the secondary tier like any other live entry. (What follows is judged only while the cache's own
+				// clock, read after the Get, still lies before the deadline.)
+				left := time.Duration(150+rng.Intn(700)) * time.Millisecond
+				if d := time.Duration(cur.deadline-st.VerifNowNano()) - left; d > 0 {
+					a.wait()
+					st.VerifShiftClock(d, true)
+					if rng.Intn(2) == 0 {
+						st.VerifRefreshClock()
+					}
+					cur.near = true
+					step("virtual time +%v (%v of the entry's lifetime left)", d, left)
+					if bar.demote(a, k) {
+						cur.demoted = true
+						demotions++
+						_, inSec := a.sec.peek(k)
+						step("forced eviction of %d -> in secondary store: %v", k, inSec)
+						r.Count("demotions_within_a_second_of_the_deadline", 1)
+					}
+				}
 				continue
 			}
 			d := time.Duration(cur.deadline-st.VerifNowNano()) + time.Second
